@@ -324,8 +324,9 @@ def run(ctx):
     for i in range(ctx.n(1600, 160000)):
         desc, build, inputs = graders[i % len(graders)]
         inp = rng.choice(inputs)
-        table = {0: 0.3, -1: 0.7, 1: rng.choice([1, 1.0, 0.9]), 2: 0.5, 3: rng.choice([0.25, 0, 1])}
-        rec = RecordingSchedule(table, rng.choice([0.125, 0.2, 0]))
-        attempt = rng.choice([-3, -1, 0, 1, 2, 3, 4, 9])
+        import numpy as np
+        table = {0: 0.3, -1: 0.7, 1: rng.choice([1, 1.0, 0.9, np.float64(1.0)]), 2: rng.choice([0.5, np.float64(0.5)]), 3: rng.choice([0.25, 0, 1, np.int64(0)])}
+        rec = RecordingSchedule(table, rng.choice([0.125, 0.2, 0, np.float32(0.25)]))
+        attempt = rng.choice([-3, -1, 0, 1, 2, 3, 4, 9, np.int64(2), np.int64(4)])
         check_grader_call(ctx, desc, build, inp, 'author:recording%r' % (sorted(table.items()),), rec,
                           attempt, rng.choice([True, False]), recorder=rec)
